@@ -97,7 +97,7 @@ def _authority(draw):
             st.text(alphabet="abcXYZ019-._~", min_size=1, max_size=12),
             st.text(alphabet="aB0-._~!$&'()*+,;=", min_size=1, max_size=8),
             st.text(alphabet=st.characters(codec="utf-8", exclude_categories=["Cs", "Cc"]), min_size=1, max_size=5),
-            st.sampled_from(["example.com", "EXAMPLE.com", "localhost", "a%b", "a%41", "x/y", "h@st", "h:1", "[x]", "sp ace", "ÄÖ"]),
+            st.sampled_from(["example.com", "EXAMPLE.com", "localhost", "a%b", "a%41", "x/y", "h@st", "h:1", "[x]", "sp ace", "ÄÖ", "::[", "[::1", "::1]", "[1.2.3.4", "]", "[", "fe80::1%eth0]"]),
         ))
         a["decoded"] = text
         a["text"] = encode_component(text, UNRESERVED + SUB_DELIMS, draw(_choices))
